@@ -730,7 +730,20 @@ func checkC08(c any) *ev.Verdict {
 			if got == nil {
 				got = new(big.Int)
 			}
-			if got.Cmp(want) != 0 {
+			// when the destination keeps a part, which source is spared is C07's business: only
+			// "the saved amount cannot be sent" is asserted then (no more than what the save
+			// rule lets the statement draw from the account, before anything is kept)
+			bad := got.Cmp(want) != 0
+			if s.Kept.Sign() > 0 {
+				drawn := new(big.Int)
+				for _, d := range s.Draws {
+					if d.Acct == acct {
+						drawn.Add(drawn, d.Amt)
+					}
+				}
+				bad = got.Cmp(drawn) > 0
+			}
+			if bad {
 				return v.Failf("visible-balance", "statement %d `%s`: takes %s from %s, whose %s was saved earlier; under the save rule it can take %s; real flows %s, flows under the save rule %s", i, stmtText(ec, i), got, acct, s.Asset, want, flowsString(hx.Flows(b.groups[i])), flowsString(s.Flows))
 			}
 		}
